@@ -1275,9 +1275,62 @@ const PLAIN_RULES: &[&str] = &[
   "id: k0\nlanguage: JavaScript\nseverity: error\nmessage: 'call of $F'\nrule: {pattern: '$F($$$A)'}\n",
 ];
 
+/// C09 over a SEQUENCE of documents: which rules apply depends on the whole path (`files:` / `ignores:`),
+/// not on what the server handled before — two files of one extension in directories the globs select
+/// differently, opened one after the other in one server (both orders), each compared with what
+/// `sg scan` reports for that file.
+fn lsp_path_sequence(o: &mut Out) {
+  let yamls = [
+    "id: no-console\nlanguage: JavaScript\nseverity: warning\nmessage: no console\nignores: ['test/**']\nrule: {pattern: console.log($A)}\n",
+    "id: no-only\nlanguage: JavaScript\nseverity: error\nmessage: no only\nfiles: ['test/**']\nrule: {pattern: it.only($A)}\n",
+    "id: no-debugger\nlanguage: JavaScript\nseverity: warning\nmessage: no debugger\nrule: {pattern: debugger}\n",
+  ];
+  let text = "console.log(1)\nit.only(2)\ndebugger\n";
+  let Ok(dir) = tempfile::tempdir() else { return };
+  let root = dir.path();
+  write_file(root, "sgconfig.yml", "ruleDirs: [rules]\n");
+  for (i, y) in yamls.iter().enumerate() {
+    write_file(root, &format!("rules/r{i}.yml"), y);
+  }
+  let files = ["src/a.js", "test/b.js", "src/deep/c.js"];
+  for f in files {
+    write_file(root, f, text);
+  }
+  let (st, out) = run_cli(root, &["scan", "--json=stream", "."], None, 30);
+  let recs = parse_json_stream(&out);
+  let cli = |f: &str| -> Vec<String> {
+    let mut v: Vec<String> = recs.iter().filter(|r| r["file"].as_str().map(|x| x.trim_start_matches("./")) == Some(f)).filter_map(|r| r["ruleId"].as_str().map(String::from)).collect();
+    v.sort();
+    v
+  };
+  let mut cases = 0usize;
+  for order in [[0usize, 1, 2], [1, 0, 2], [2, 1, 0]] {
+    let Some(rules) = load_rules(&yamls.join("---\n")) else { return };
+    let Some(mut lsp) = LspSession::start(rules, root) else { return };
+    for k in order {
+      let f = files[k];
+      let uri = format!("file://{}/{}", root.display(), f);
+      let Some(ds) = lsp.open(&uri, "javascript", 1, text) else { continue };
+      let mut got: Vec<String> = ds.iter().filter_map(|d| d["code"].as_str().map(String::from)).collect();
+      got.sort();
+      cases += 1;
+      if st != "hang" && got != cli(f) {
+        o.oracle(
+          "lsp-path-sequence",
+          false,
+          json!({"fp": format!("language server: the rules applied to a document depend on the documents opened before it (position {} of the sequence)", order.iter().position(|x| *x == k).unwrap_or(0)),
+                 "file": f, "sequence": order.iter().map(|i| files[*i]).collect::<Vec<_>>(), "lsp": got, "scan": cli(f), "rules": yamls}),
+        );
+      }
+    }
+  }
+  o.oracle("lsp-path-sequence", true, json!({"cases": cases}));
+}
+
 pub fn frontends_findings(ctx: &Ctx, rng: &mut Rng, o: &mut Out) {
   let v = probe_variant();
   o.op("info:variant", v.json(), Value::Null);
+  lsp_path_sequence(o);
   let n_sets = if ctx.thorough { 1500 } else { 100 };
   let mut cases = 0usize;
   let mut skipped = 0usize;
